@@ -1,12 +1,68 @@
 /-
-  Props.C06 — the theorems that decide property C06 (see DESIGN.md §7).
+  Props.C06 — Search never modifies the document it is given (DESIGN.md §7, C06).
+
+  Three layers:
+  (1) the regenerated write-site facts: no instruction reachable from the
+      public entry points writes to a parameter, a receiver or package state
+      (`C06_generated_writes_ok`, re-derived from /repo's SSA on every run);
+  (2) the abstract shared-memory machine (Spec/Threads.lean): when every write
+      of a call goes to a location the call owns, no schedule of any number of
+      calls changes a shared location — in particular the document
+      (`C06_frame`), on success and on error paths alike (the machine does not
+      distinguish them);
+  (3) the API model, where documents are values: every search operation, failed
+      or not, leaves every stored document as it was (`C06_model_documents_unchanged`);
+      the correspondence check compares the implementation's document before
+      and after each call (`!docmut` oracle) on the same operations.
 -/
 import Props.Tables
+import Props.Writes
+import Proofs.Threads
+import Jmes.Api
 namespace Jmes.Props
-open Jmes
+open Jmes Jmes.Api
 
 theorem C06_generated_table_ok : TableOK Generated.table = true := generated_table_ok
 theorem C06_generated_sigs_ok : SigsOK Generated.functionTable Spec.functionTable = true := generated_sigs_ok
 theorem C06_generated_lex_ok : LexTablesOK Model.lexTables Spec.lexTables = true := generated_lex_ok
+
+/-- (1) every write site of /repo is private to the call. -/
+theorem C06_generated_writes_ok : WritesOK GeneratedWrites.writeSites = true := generated_writes_ok
+
+/-- (2) the frame property: shared locations (the document among them) hold
+    after any schedule of any calls what they held before. -/
+theorem C06_frame {T L V PC : Type} [DecidableEq T] [DecidableEq L] (S : Threads.Sys T L V PC)
+    (hw : Threads.WritesPrivate S) (c : Threads.Conf T L V PC) (sched : List T) (l : L) (hl : S.owner l = none) :
+    (S.run c sched).heap l = c.heap l :=
+  Threads.shared_unchanged S hw c sched l hl
+
+variable {N : Type} [NumOps N]
+
+/-- (3) in the API model a search — compiled or one-shot, successful, failing
+    or on a missing handle — changes no document and no compiled expression. -/
+theorem C06_model_documents_unchanged (cfg : Config) (s : State N) (op : Op N)
+    (hop : (∃ h d, op = .searchC h d) ∨ (∃ e d, op = .search e d)) :
+    (step cfg s op).1.docs = s.docs ∧ (step cfg s op).1.handles = s.handles := by
+  rcases hop with ⟨h, d, rfl⟩ | ⟨e, d, rfl⟩
+  · simp only [step]; split <;> exact ⟨rfl, rfl⟩
+  · simp only [step]; split <;> exact ⟨rfl, rfl⟩
+
+/-- … and so does any sequence of searches. -/
+theorem C06_model_documents_unchanged_run (cfg : Config) (s : State N) (ops : List (Op N))
+    (hops : ∀ op ∈ ops, (∃ h d, op = .searchC h d) ∨ (∃ e d, op = .search e d)) :
+    (run cfg s ops).1.docs = s.docs := by
+  induction ops generalizing s with
+  | nil => rfl
+  | cons op ops ih =>
+    simp only [run]
+    rw [ih _ (fun o ho => hops o (by simp [ho]))]
+    exact (C06_model_documents_unchanged cfg s op (hops op (by simp))).1
+
+/-- The machine's hypothesis is satisfiable by a system that does write:
+    one call that increments a private counter next to a shared cell. -/
+example : ∃ S : Threads.Sys Unit Bool Nat Unit, Threads.WritesPrivate S ∧
+    (S.step () (fun _ => 0) ()).2 ≠ [] ∧ S.owner false = none :=
+  ⟨⟨fun l => if l then some () else none, fun _ h _ => ((), [(true, h true + 1)])⟩,
+   by intro t h pc lv hlv; simp at hlv; subst hlv; rfl, by simp, rfl⟩
 
 end Jmes.Props
